@@ -8,6 +8,7 @@ granularity inside clastic and the generated chain code."""
 import os
 import sys
 import json
+import zlib
 import random
 import threading
 
@@ -32,6 +33,10 @@ REQUIRED_REACH = ['schedules:single-preemption', 'schedules:single-preemption-on
                   'kind:redirect', 'kind:render', 'kind:httperr']
 NSHARDS = 16
 KINDS = ['echo', 'echo2', '404', '405', 'fallthrough', 'boom', 'redirect', 'render', 'httperr']
+# two routes on one path with different methods: a request neither admits makes the dispatcher collect both method sets
+KINDS_MORE = ['thing-delete', 'thing-post', 'thing-get']
+EXTRA_PAIRS = [('thing-delete', 'thing-post'), ('thing-post', 'thing-delete'), ('thing-delete', 'thing-delete'), ('thing-delete', 'thing-get'),
+               ('thing-post', 'echo'), ('405', 'thing-delete'), ('thing-delete', 'fallthrough')]
 
 
 def build_app():
@@ -89,12 +94,18 @@ def build_app():
     routes = [Route('/echo/<x>', echo, methods=['GET']),
               Route('/fall/<x>', fall_first), Route('/fall/<x>', fall_second),
               Route('/boom/<x>', boom), Route('/branch/', branch), Route('/render/<x>', ctx, render_basic),
-              Route('/err/<x>', httperr), Route('/only-get', lambda: Response('x'), methods=['GET'])]
+              Route('/err/<x>', httperr), Route('/only-get', lambda: Response('x'), methods=['GET']),
+              Route('/thing', lambda request, who: Response('read:%s' % who), methods=['GET']),
+              Route('/thing', lambda request, who: Response('written:%s' % who, status=201), methods=['POST'])]
     return Application(routes, middlewares=[Who(), Stamp()], error_handler=EH())
 
 
 def make_request(kind, tok):
-    h = {'X-Token': tok, 'Accept': 'application/json'}
+    # what the client accepts belongs to the request like its token does (error bodies are negotiated per request)
+    accept = ['application/json', 'text/html', 'application/xml', 'text/plain', 'application/json', None][zlib.crc32(tok.encode()) % 6]
+    h = {'X-Token': tok}
+    if accept:
+        h['Accept'] = accept
     if kind in ('echo', 'echo2'):
         return ('GET', '/echo/%s-%s' % (kind, tok), 'k=' + tok, h)
     if kind == '404':
@@ -103,6 +114,8 @@ def make_request(kind, tok):
         return ('POST', '/only-get', 'k=' + tok, h)
     if kind == 'fallthrough':
         return ('GET', '/fall/%s' % tok, '', h)
+    if kind.startswith('thing-'):
+        return (kind[6:].upper(), '/thing', 'k=' + tok, h)
     if kind == 'boom':
         return ('GET', '/boom/%s' % tok, '', h)
     if kind == 'redirect':
@@ -149,7 +162,8 @@ class Ctx(object):
     def alone(self, kind, tok):
         key = (kind, tok)
         if key not in self.baseline:
-            ex = job_for(self.app, make_request(kind, tok))()
+            # "served alone": on an application of its own that serves nothing else, before or after
+            ex = job_for(build_app(), make_request(kind, tok))()
             o, rid = observe(ex)
             self.baseline[key] = o
             if rid is not None:
@@ -188,7 +202,7 @@ class Ctx(object):
         if s.overlap_dispatch:
             sh.hit('both-in-dispatch')
         for k in kinds:
-            sh.hit('kind:' + {'echo2': 'echo'}.get(k, k))
+            sh.hit('kind:' + {'echo2': 'echo', 'thing-get': 'thing', 'thing-post': 'thing', 'thing-delete': 'thing'}.get(k, k))
         return ok
 
 
@@ -233,7 +247,7 @@ def random_multi(cx, rng, n):
     sh = cx.sh
     for i in range(n):
         nthreads = rng.choice([3, 3, 4])
-        kinds = [rng.choice(KINDS) for _ in range(nthreads)]
+        kinds = [rng.choice(KINDS + KINDS_MORE) for _ in range(nthreads)]
         toks = ['R%d%s%d' % (j, kinds[j], i) for j in range(nthreads)]
         for k, t in zip(kinds, toks):
             cx.alone(k, t)
@@ -255,7 +269,7 @@ def stress(cx, rng, nthreads, per_thread):
     old = sys.getswitchinterval()
     plans = []
     for t in range(nthreads):
-        plans.append([(rng.choice(KINDS), 'S%d_%d' % (t, j % 7)) for j in range(per_thread)])
+        plans.append([(rng.choice(KINDS + KINDS_MORE), 'S%d_%d' % (t, j % 7)) for j in range(per_thread)])
     for plan_ in plans:
         for k, tok in set(plan_):
             cx.alone(k, tok)
@@ -307,7 +321,7 @@ def check_rids(cx):
 
 def plan(tier, seed):
     specs = []
-    pairs = [(a, b) for a in KINDS for b in KINDS]
+    pairs = [(a, b) for a in KINDS for b in KINDS] + EXTRA_PAIRS
     for i in range(NSHARDS):
         specs.append({'label': 'pairs-%d' % i, 'kind': 'single', 'pairs': pairs[i::NSHARDS], 'timeout': 7200})
     for i in range(8):
